@@ -33,7 +33,10 @@ def collect():
             f = l.rstrip("\n").split("\t")
             if len(f) == 4:
                 rows[(f[0], f[1])] = (f[2], f[3])
-    files = sorted(glob.glob(f"{ROOT}/target/mut2-results-*.txt") + glob.glob(f"{ROOT}/target/seed2*-results-*.txt") + glob.glob(f"{ROOT}/target/rerun-results-*.txt"), key=os.path.getmtime)
+    # batches in the order they were started (re-runs after a strengthening come last)
+    files = []
+    for pat in ("mut2-results-*", "seed2-results-*", "seed2b-results-*", "seed2c-results-*", "rerun-results-*"):
+        files += sorted(glob.glob(f"{ROOT}/target/{pat}.txt"))
     for fn in files:
         for l in open(fn):
             m = re.match(r"(CAUGHT|MISSED|INCONCLUSIVE) (\S+)\.diff (\S+) rc=\d+ ?(?:signature=(\S+))?", l)
